@@ -419,6 +419,10 @@ class Runner:
         self.stats["distinct_states"] = len(state_keys) + sum(len(t) for t in iso.values())
         self.res2 = res2
 
+        # 2b. fork shortcut cross-check: a sample of programs is checked alone in a genuinely fresh
+        # interpreter (no fork) and must give the observation of the fork-isolated reference
+        self.fresh_crosscheck()
+
         # 3. determinism self-test: re-run a sample of worlds, digests must be identical
         self.selftest(list(res.values()) + list(res2.values()))
         if self.harness_errors:
@@ -429,6 +433,22 @@ class Runner:
         return self.finish(violations, known)
 
     # ------------------------------------------------------------------ self tests
+    def fresh_crosscheck(self):
+        r = Rng(self.seed, "c10", "fresh")
+        sample = r.sample(sorted(self.usable), min(self.tier.n_fresh, len(self.usable)))
+        jobs = [Job("fresh/%d" % k, "fresh", 0, 0, [{"op": "check", "pid": p}], {"pid": p}) for k, p in enumerate(sample)]
+        res = self.run_jobs(jobs)
+        bad = 0
+        for name, (job, events, end) in res.items():
+            obs = oracle.target_obs(events, job.meta["pid"])
+            d = oracle.compare(self.ref[job.meta["pid"]], obs, use_ann=True)
+            if d and d["level"] != "revealed":
+                bad += 1
+                self.harness_errors.append("fork-isolated and fresh-interpreter observations differ for %s: %s" % (job.meta["pid"], (d.get("detail") or "")[:300]))
+        self.stats["fresh_exec_crosschecks"] = len(res)
+        self.stats["fresh_exec_mismatches"] = bad
+        self.fault_counts["fresh_interpreter_crosscheck"] += len(res)
+
     def selftest(self, done):
         r = Rng(self.seed, "c10", "selftest")
         sample = r.sample(sorted(done, key=lambda t: t[0].name), min(self.tier.n_selftest, len(done)))
@@ -751,6 +771,7 @@ class Runner:
                 "ordered_family_pairs_covered": int(self.stats.get("ordered_family_pairs_covered", 0)),
                 "determinism_selftest": {"worlds_rerun": int(self.stats.get("selftest_worlds_rerun", 0)),
                                          "digest_mismatches": int(self.stats.get("selftest_digest_mismatches", 0))},
+                "fresh_exec_crosscheck": {"programs": int(self.stats.get("fresh_exec_crosschecks", 0)), "mismatches": int(self.stats.get("fresh_exec_mismatches", 0))},
                 "aslr_pinned": bool(launch.aslr_prefix()),
                 "real_code": ["pyanalyze (all of it, from the working tree)", "qcore, asynq, typeshed_client, ast_decompiler, tomli",
                               "CPython hashing, allocator, import system", "file system under the scratch tree (file route)"],
